@@ -15,8 +15,10 @@ for d in sorted(glob.glob('/verif/seeded/*/')):
     name = os.path.basename(d.rstrip('/'))
     if want and not any(name.startswith(w) for w in want):
         continue
+    if not os.path.exists(os.path.join(d, 'meta.json')):
+        continue        # e.g. seeded/hand: hand-made mutation patches, run through tools/mut.sh
     meta = json.load(open(os.path.join(d, 'meta.json')))
-    ids = [c for c, v in meta.get('checks', {}).items() if v.get('exit') == 1] or [meta['property']]
+    ids = meta.get('matrix_checks') or [c for c, v in meta.get('checks', {}).items() if v.get('exit') == 1] or [meta['property']]
     wt = tempfile.mkdtemp(prefix='vf-mx-', dir='/var/tmp'); os.rmdir(wt)
     out = tempfile.mkdtemp(prefix='vf-mx-out-', dir='/var/tmp')
     subprocess.run(['git', '-C', '/repo', 'worktree', 'add', '-q', '--detach', wt, 'HEAD'], check=True)
